@@ -21,6 +21,20 @@ from panqec import bpauli, bsparse
 DTYPES = ['uint8', 'int8', 'int16', 'int32', 'int64', 'uint32', 'uint64']
 
 
+def noncanonical(mat):
+    """The same GF(2) matrix as a csr_matrix in non-canonical storage, the way
+    sparse GF(2) addition leaves it: e = e1 + e2; e.data %= 2 keeps explicitly
+    stored zeros where e1 and e2 overlap, and unsorted index order."""
+    mat = np.asarray(mat, dtype=np.uint8)
+    mask = np.zeros_like(mat)
+    mask[:, ::2] = 1                       # deterministic overlap pattern
+    a = csr_matrix(((mat + mask) % 2).astype(np.uint8))
+    b = csr_matrix(mask)
+    e = (a + b).tocsr()
+    e.data %= 2
+    return e.astype(np.uint8)
+
+
 def reps_single(vec):
     """Every accepted representation of one operator (name, value)."""
     out = [('list', [int(x) for x in vec])]
@@ -28,6 +42,7 @@ def reps_single(vec):
         out.append((f'nd1-{dt}', np.array(vec, dtype=dt)))
         out.append((f'nd2-{dt}', np.array(vec, dtype=dt).reshape(1, -1)))
     out.append(('csr', csr_matrix(np.array(vec, dtype='uint8').reshape(1, -1))))
+    out.append(('csr-stored-zeros', noncanonical(np.array(vec, dtype='uint8').reshape(1, -1))))
     return out
 
 
@@ -36,6 +51,7 @@ def reps_stack(mat, light=False):
     for dt in (DTYPES if not light else ['uint8', 'int8', 'int64']):
         out.append((f'nd2-{dt}', np.array(mat, dtype=dt)))
     out.append(('csr', csr_matrix(np.array(mat, dtype='uint8'))))
+    out.append(('csr-stored-zeros', noncanonical(np.array(mat, dtype='uint8'))))
     return out
 
 
